@@ -23,7 +23,7 @@ def main():
             fd.flush()
             os.fsync(fd.fileno())
         return None if x % 3 == 0 else x * 7 + 3      # None is a legal example value
-    base = lazy_dataset.new(list(range(n))).map(f)
+    base = lazy_dataset.new({f'k{j}': j for j in range(n)}).map(f)      # keyed: examples are read by position and by key
     holders = {}
     its = {}          # iterators in flight: id -> (wrapper, iterator)
     out = sys.stdout
@@ -37,7 +37,7 @@ def main():
                 rep = {'opened': op['w']}
                 del ds
             elif k == 'get':
-                rep = {'val': holders[op['w']][0][op['i']]}
+                rep = {'val': holders[op['w']][0][f"k{op['i']}" if op.get('by_key') else op['i']]}
             elif k == 'next':
                 # the same access made by a plain iteration in flight (position op['i'])
                 if op['it'] not in its:
